@@ -7,7 +7,7 @@ PROPS = {
         "level": "proof",
         "harness": ["purediff", "gwrun"],
         "stages": [("pure", stage_pure, {"suites": ["can_call"], "n_quick": 20000, "n_thorough": 400000}),
-                   ("gw", stage_gw, {"profiles": [("access", 300, 6000)]})],
+                   ("gw", stage_gw, {"profiles": [("access", 1200, 6000)]})],
         "rule": "structured call lists over a 4-letter alphabet with empty/star entries, action = entry | prefix | suffix | "
                 "random | whole list | raw bytes, 10% byte-mutated; non-trivial = list with >= 2 entries; distinct by input",
         "assumptions": ["codec.AccessResult decoding (encoding/json) is not modelled"],
@@ -20,7 +20,7 @@ PROPS = {
         "level": "proof",
         "harness": ["purediff", "gwrun"],
         "stages": [("pure", stage_pure, {"suites": ["pattern", "lcs", "ressub"], "n_quick": 6000, "n_thorough": 150000}),
-                   ("gw", stage_gw, {"profiles": [("reset", 250, 6000)]})],
+                   ("gw", stage_gw, {"profiles": [("reset", 1000, 6000)]})],
         "rule": "patterns/names over a token alphabet with wildcards, invalid tokens and byte mutations (names derived from the pattern "
                 "so matches are frequent); all pairs of collections up to length 3 over 2 value classes plus random edit-distance pairs "
                 "up to length 10 over <=5 classes of all four value kinds; direct-drive op sequences (events, reset start/answers incl. "
@@ -75,7 +75,7 @@ PROPS = {
         "level": "proof",
         "harness": ["gwrun", "purediff"],
         "stages": [("pure", stage_pure, {"suites": ["ressub"], "n_quick": 4000, "n_thorough": 60000}),
-                   ("gw", stage_gw, {"profiles": [("basic", 50, 1000), ("refs", 120, 3000), ("churn", 120, 3000), ("wild", 0, 1500)]})],
+                   ("gw", stage_gw, {"profiles": [("basic", 200, 1000), ("refs", 480, 3000), ("churn", 480, 3000), ("wild", 0, 1500)]})],
         "rule": "random histories of the real gateway under the harness scheduler (every connection task, cache task and hooked goroutine "
                 "granted one at a time): 2 clients, 3-4 resources with reference graphs (sharing, cycles, self references), "
                 "subscribe/unsubscribe/get, service change/add/remove/custom events made unique by a fresh tag, answers in any order; "
@@ -91,7 +91,7 @@ PROPS = {
         "coq": ["Props/C02.v"],
         "level": "proof",
         "harness": ["gwrun"],
-        "stages": [("gw", stage_gw, {"profiles": [("refs", 150, 4000), ("churn", 150, 4000), ("gets", 0, 1500), ("wild", 0, 1500)]})],
+        "stages": [("gw", stage_gw, {"profiles": [("refs", 600, 4000), ("churn", 600, 4000), ("gets", 0, 1500), ("wild", 0, 1500)]})],
         "rule": "as C01 with reference-changing events and unsubscribes; the reference client (Spec/Client.v) retains what is reachable from "
                 "direct subscriptions and outstanding subscribe/get requests; after every frame: no dangling reference, no event for an "
                 "unheld resource, right kind, index in range; non-trivial = more than 4 client frames and a quiescent point",
@@ -104,7 +104,7 @@ PROPS = {
         "coq": ["Props/C03.v"],
         "level": "proof",
         "harness": ["gwrun"],
-        "stages": [("gw", stage_gw, {"profiles": [("basic", 80, 2000), ("refs", 120, 3000), ("churn", 100, 3000), ("wild", 0, 1500)]})],
+        "stages": [("gw", stage_gw, {"profiles": [("basic", 320, 2000), ("refs", 480, 3000), ("churn", 400, 3000), ("wild", 0, 1500)]})],
         "rule": "as C01; every service event carries a unique tag; per client and resource the delivered events must be a contiguous run "
                 "of the service stream (candidate-position tracking, no false alarm on repeated identical events), nothing missing at quiescence",
         "assumptions": ["no resets/query events in this stage (superseded events are not exercised)"],
@@ -117,7 +117,7 @@ PROPS = {
         "level": "proof",
         "harness": ["gwrun", "purediff"],
         "stages": [("pure", stage_pure, {"suites": ["dispatch"], "n_quick": 4000, "n_thorough": 80000}),
-                   ("gw", stage_gw, {"profiles": [("basic", 80, 2000), ("refs", 80, 2500), ("churn", 120, 3000), ("wild", 0, 1500)]})],
+                   ("gw", stage_gw, {"profiles": [("basic", 320, 2000), ("refs", 320, 2500), ("churn", 480, 3000), ("wild", 0, 1500)]})],
         "rule": "as C01; response ledger: every response matches exactly one outstanding request id of that connection, nothing outstanding at quiescence; "
                 "plus the dispatcher differential (exactly one immediate reply or one requester call per method string)",
         "assumptions": [],
@@ -129,7 +129,7 @@ PROPS = {
         "coq": ["Props/C08.v"],
         "level": "proof",
         "harness": ["gwrun"],
-        "stages": [("gw", stage_gw, {"profiles": [("basic", 100, 2500), ("churn", 150, 3000), ("gets", 0, 1500), ("wild", 0, 1500)]})],
+        "stages": [("gw", stage_gw, {"profiles": [("basic", 400, 2500), ("churn", 600, 3000), ("gets", 0, 1500), ("wild", 0, 1500)]})],
         "rule": "as C01 with unsubscribe counts (absent, 0, negative, 1..3) and failing gets; ledger driven only by observable successes predicts every "
                 "unsubscribe outcome and is compared with the gateway's own direct counts (introspection) at every quiescent point",
         "assumptions": [],
@@ -142,7 +142,7 @@ PROPS = {
         "level": "proof",
         "harness": ["gwrun", "purediff"],
         "stages": [("pure", stage_pure, {"suites": ["can_get"], "n_quick": 10, "n_thorough": 10}),
-                   ("gw", stage_gw, {"profiles": [("access", 300, 6000), ("basic", 60, 1000), ("wild", 0, 1000)]})],
+                   ("gw", stage_gw, {"profiles": [("access", 1200, 6000), ("basic", 240, 1200), ("wild", 0, 1000)]})],
         "rule": "histories with a consistent access policy per (token, resource) that changes only together with a reaccess event, token event or "
                 "system reset; every access outcome (grant, get:false, accessDenied, internal error, timeout); subscribe/get/call/auth with "
                 "resource responses, concurrent requests on one resource; monitor: every data delivery for a directly requested resource needs an "
@@ -156,7 +156,7 @@ PROPS = {
         "coq": ["Props/C06.v"],
         "level": "proof",
         "harness": ["gwrun"],
-        "stages": [("gw", stage_gw, {"profiles": [("access", 300, 6000), ("reset", 150, 3000)]})],
+        "stages": [("gw", stage_gw, {"profiles": [("access", 1200, 6000), ("reset", 600, 3000)]})],
         "rule": "as C04 with token events on connections with and without a token, reaccess events, system resets with access patterns, triggers injected "
                 "while loading, while events are queued and while an earlier check is pending; monitor: every trigger is followed (by the next quiescent "
                 "point) by an access request with a current token for each affected direct subscription, a non-grant verdict by an unsubscribe event, and "
@@ -170,7 +170,7 @@ PROPS = {
         "coq": ["Props/C09.v"],
         "level": "proof",
         "harness": ["gwrun"],
-        "stages": [("gw", stage_gw, {"profiles": [("churn", 200, 5000), ("long", 100, 2000), ("basic", 50, 1000)]})],
+        "stages": [("gw", stage_gw, {"profiles": [("churn", 800, 5000), ("long", 400, 2000), ("basic", 200, 1000)]})],
         "rule": "histories with disconnects, evictions fired at arbitrary moments, failing gets, delete events, resource ids around the control-line limit; "
                 "ending with every client gone and every eviction timer fired; monitor at each quiescent point (introspection): use count = subscribers, "
                 "unused <-> queued for eviction, entries = event subscriptions, every get under a standing subscription, data served only after a fetch under "
@@ -185,7 +185,7 @@ PROPS = {
         "level": "proof",
         "harness": ["gwrun", "purediff"],
         "stages": [("pure", stage_pure, {"suites": ["expand_cid"], "n_quick": 3000, "n_thorough": 50000}),
-                   ("gw", stage_gw, {"profiles": [("access", 200, 4000), ("churn", 100, 2000)]})],
+                   ("gw", stage_gw, {"profiles": [("access", 800, 4000), ("churn", 400, 2000)]})],
         "rule": "multi-connection histories with distinct tokens; monitor: no frame to a client contains any connection id, every service request made by "
                 "connection c's worker carries c's id and a token of c in effect since the last quiescent point; differential of the {cid} expansion",
         "assumptions": ["services never put connection ids into payloads (the mock does not)"],
@@ -197,13 +197,30 @@ PROPS = {
         "coq": ["Props/C11.v"],
         "level": "proof",
         "harness": ["gwrun"],
-        "stages": [("gw", stage_gw, {"profiles": [("churn", 250, 6000), ("wild", 0, 1500)]})],
+        "stages": [("gw", stage_gw, {"profiles": [("churn", 1000, 6000), ("wild", 0, 1500)]})],
         "rule": "disconnect injected at random steps with requests, loads, access checks and queued events outstanding, late answers delivered afterwards; "
                 "monitor at the next quiescent point: no subscription, no conn-event subscription left for the connection, use counts equal remaining "
                 "subscribers, and no service request on its behalf afterwards",
         "assumptions": ["WebSocket connections only in this stage"],
         "technique": "Coq proof (use count stays the number of users under any release order; late release absorbed) + Coq cleanup monitor (extracted) on scheduled traces with introspection",
         "level_text": "Cache-side accounting proved; the cleanup statement is a decidable Coq predicate evaluated on explored histories with disconnects at arbitrary steps",
+        "level_note": "trusted: Coq kernel, extraction, the harness (mock messaging system, consistent mock service, scheduler hooks, frame abstraction in harness/internal/gw); task atomicity (DESIGN section 4); modelled not verified: encoding/json, gorilla/websocket",
+    },
+    "C15": {
+        "coq": ["Props/C15.v"],
+        "level": "proof",
+        "harness": ["gwrun", "purediff"],
+        "stages": [("pure", stage_pure, {"suites": ["ressub", "lcs", "throttle"], "n_quick": 3000, "n_thorough": 60000}),
+                   ("gw", stage_gw, {"profiles": [("malformed", 1500, 10000), ("wild", 1200, 6000), ("churn", 800, 4000)],
+                                     "monitor_props": ("C15", "C01", "C02", "C03", "C07")})],
+        "rule": "every history runs in its own gateway process: malformed client frames (bad JSON, wrong id/method/params types, ill-formed methods), "
+                "malformed or protocol-violating answers to get/access/call/auth requests, malformed and inapplicable resource events (wrong kind, bad "
+                "index, improper value, undecodable), malformed system and connection events injected at random points of otherwise valid histories "
+                "(plus unrestricted reference graphs with cycles); a process death, a scheduler stall (work pending, nothing runnable) or a divergence of "
+                "any client's copy from the untouched service truth is a violation; plus direct-drive op sequences with bad events on one cached resource",
+        "assumptions": ["memory exhaustion and the encoding/json / gorilla layers are outside the model"],
+        "technique": "Coq proofs (inapplicable events discarded as a whole; diff indices always in range; throttle never panics) + fault injection into scheduled histories of the real gateway, one process per history, with the Coq monitors checking that bad input has no effect",
+        "level_text": "Decision logic for discarding bad input proved on the cache-side model (tied by direct-drive differential); process survival and absence of stalls checked by fault injection on the real code",
         "level_note": "trusted: Coq kernel, extraction, the harness (mock messaging system, consistent mock service, scheduler hooks, frame abstraction in harness/internal/gw); task atomicity (DESIGN section 4); modelled not verified: encoding/json, gorilla/websocket",
     },
 }
